@@ -26,6 +26,13 @@ open Real
 @[simp] theorem rfun_expm1 (x : ℝ) : RFun.expm1 x = Real.exp x - 1 := rfl
 @[simp] theorem rfun_recip (x : ℝ) : RFun.recip x = 1 / x := rfl
 @[simp] theorem rfun_pow (x y : ℝ) : RFun.pow x y = x ^ y := rfl
+@[simp] theorem rfun_exp2 (y : ℝ) : RFun.exp2 y = (2.0 : ℝ) ^ y := rfl
+/-- `(2.0f64).powf(y)` over ℝ: the same normal form as `RFun.pow 2.0 y` -/
+@[simp] theorem pow2Lit_real (y : ℝ) : pow2Lit y = (2.0 : ℝ) ^ y := rfl
+/-- `x.powf(2.0)` over ℝ: the compiled `x * x` is `x ^ 2.0`, the same normal form as `RFun.pow x 2.0` -/
+@[simp] theorem powfLit2_real (x : ℝ) : powfLit2 x = x ^ (2.0 : ℝ) := by
+  have h : (2.0 : ℝ) = ((2 : ℕ) : ℝ) := by norm_num
+  rw [h, Real.rpow_natCast]; unfold powfLit2; ring
 @[simp] theorem rfun_powi (x : ℝ) (n : Int) : RFun.powi x n = x ^ n := rfl
 @[simp] theorem rfun_logb (x b : ℝ) : RFun.logb x b = Real.log x / Real.log b := rfl
 @[simp] theorem rfun_fmin (x y : ℝ) : RFun.fmin x y = min x y := rfl
@@ -55,7 +62,7 @@ open Real
 
 /-- normalise model operations over ℝ, then arithmetic literals -/
 macro "rfun_norm" : tactic => `(tactic| (try simp only [rfun_exp, rfun_ln, rfun_sqrt, rfun_sin, rfun_cos, rfun_tan, rfun_atan,
-  rfun_abs, rfun_floor, rfun_ceil, rfun_ln1p, rfun_expm1, rfun_recip, rfun_pow, rfun_powi, rfun_logb, rfun_fmin, rfun_fmax,
+  rfun_abs, rfun_floor, rfun_ceil, rfun_ln1p, rfun_expm1, rfun_recip, rfun_pow, rfun_exp2, pow2Lit_real, powfLit2_real, rfun_powi, rfun_logb, rfun_fmin, rfun_fmax,
   rfun_isNaN, rfun_isInf, rfun_isFinite, rfun_ofInt, rfun_ulpsEq, rfun_pi, rfun_tau, rfun_e, rfun_ln2, rfun_ln10, rfun_sqrt2,
   rfun_frac1Sqrt2, rfun_fracPi2, rfun_c_SQRT_2PI, rfun_c_LN_PI, rfun_c_LN_SQRT_2PI, rfun_c_LN_SQRT_2PIE,
   rfun_c_LN_2_SQRT_E_OVER_PI, rfun_c_TWO_SQRT_E_OVER_PI, rfun_c_EULER, rfun_sumZero, real_beq] at *))
